@@ -23,6 +23,8 @@ CONFIGS = {
     # (iii) a responder policy that refuses CREATE_CHILD_SA from A's second entry (TS) and whose CHILD
     # proposal differs for new SAs requested by B (proposal): error replies take part in collisions
     'refuse': lambda: _refuse_confs(),
+    # (ii') PFS with the same group on both sides: every CREATE_CHILD_SA carries KE payloads, no retry
+    'pfs': lambda: S.base_confs(a_entry={'dh': ['19']}, b_entry={'dh': ['19']}),
     # (iv) IKE over IPv6 protecting IPv4 networks in tunnel mode: address family of the SA differs from its selectors
     'v6-outer': lambda: _v6_outer_confs(),
 }
